@@ -13,8 +13,8 @@ VALS = [1, None]
 
 
 def K(k):
-    from icalendar.parser_tools import to_unicode
-    return to_unicode(k).upper()
+    """the reference key: the upper-cased name, bytes read as UTF-8 (own definition - not the library's to_unicode)"""
+    return (k.decode("utf-8") if isinstance(k, bytes) else k).upper()
 
 
 def skey(k):
